@@ -66,17 +66,19 @@ def injectFn (grids : List (Array Rat)) (frozen nomut : List Bool) (dt theta0 : 
 def inject (grids : List (Array Rat)) (frozen nomut : List Bool) (dt theta0 : Rat) (T : ND) : ND :=
   ND.ofFn T.shape (injectFn grids frozen nomut dt theta0 T.get)
 
-/-- one full time step with the on-the-fly kernels: inject, then every non-frozen axis in order.
-    `eps k` supplies the exp values for the sweep along axis k (only read when `use`). -/
+/-- one axis of the sweep on tabulated arrays; `eps k` supplies the exp values for axis k (only read when `use`) -/
+def sweepAxis (grids : List (Array Rat)) (frozen : List Bool) (use : Bool) (eps : Nat → ND)
+    (pops : List PopParams) (beta : Option Rat) (dt : Rat) (acc : ND) (k : Nat) : ND :=
+  if frozen.getD k false then acc
+  else match pops[k]? with
+    | some p => stepAxis grids k (p.axis beta) use (eps k) dt acc
+    | none => acc
+
+/-- one full time step with the on-the-fly kernels: inject, then every non-frozen axis in order. -/
 def sweep (grids : List (Array Rat)) (frozen nomut : List Bool) (use : Bool) (eps : Nat → ND)
     (P : StepParams) (dt : Rat) (T : ND) : ND :=
-  let d := grids.length
-  let T0 := inject grids frozen nomut dt P.theta0 T
-  (List.range d).foldl (fun acc k =>
-    if frozen.getD k false then acc
-    else match P.pops[k]? with
-      | some p => stepAxis grids k (p.axis P.beta) use (eps k) dt acc
-      | none => acc) T0
+  (List.range grids.length).foldl (sweepAxis grids frozen use eps P.pops P.beta dt)
+    (inject grids frozen nomut dt P.theta0 T)
 
 /-- one axis of the sweep on the functional form -/
 def sweepAxisFn (grids : List (Array Rat)) (frozen : List Bool) (use : Bool) (eps : Nat → List Nat → Nat → Rat)
